@@ -17,13 +17,13 @@ CHECKS = {
   note="Trusts: rapid; the reference model in props/unit/c17_test.go (edges on base ids; orphan rule as documented in RemoveNode); fabricated AST nodes/file versions stand in for parsed files.",
   ref="6/C17"),
  "C16": dict(
-  technique="round-trip property testing with rapid: annotation/JSON5 AST -> printer -> go/parser -> NewAnnotationHolder -> compare with AST",
-  text="Generated-input search: comment blocks are drawn as ASTs (annotation name/value/JSON5 property tree/description, free text, near-miss lines, malformed JSON5), printed by an independent JSON5 printer, embedded in a real Go file and parsed back through go/parser, gast.MapDocListToCommentBlock and annotations.NewAnnotationHolder; the AST is the oracle for attributes, order, free text, entity description, error on malformed JSON5 and the value/properties ranges. Sampling.",
+  technique="round-trip property testing with rapid (annotation/JSON5 AST -> printer -> go/parser -> NewAnnotationHolder -> compare with AST) plus invariant checking over arbitrary comment text (rapid skeleton-and-damage generator; native go fuzzing in the thorough tier)",
+  text="Two parts. Text part: arbitrary comment lines (skeleton '@Name(value, {props}) description' filled with token soup and well-formed JSON5, then damaged; raw bytes from the native fuzzer in the thorough tier) are parsed and the result must satisfy the relations the statement implies for every input: each line is one attribute or one free-text line, attributes come from lines starting with their name and in source order, a value is the text its range covers, properties are what the covered text decodes to as a single JSON5 value (nothing dropped), a description is the tail of its line. Grammar part: comment blocks are drawn as ASTs (annotation name/value/JSON5 property tree/description, free text, near-miss lines, malformed JSON5), printed by an independent JSON5 printer, embedded in a real Go file and parsed back through go/parser, gast.MapDocListToCommentBlock and annotations.NewAnnotationHolder; the AST is the oracle for attributes, order, free text, entity description, error on malformed JSON5 and the value/properties ranges. Sampling.",
   note="Trusts: rapid, go/parser, the harness's JSON5 printer and number semantics; generator preconditions listed in the evidence assumptions (no blank before the separator comma, near-misses limited to unambiguous non-forms); one known finding (F-C16-1) excluded by construction and replayed as witness.",
   ref="6/C16"),
  "C14": dict(
   technique="property-based testing (rapid) of emitters and annotation helpers with arbitrary validator strings/type names/property bags; real CLI runs over generated hostile projects and configs; native fuzzing in the thorough tier",
-  text="Generated-input search at two levels. Unit: arbitrary validator rule lists, type names and JSON5 property bags are pushed through the real swagen.GenerateSpec (3.0 and 3.1) and the annotation/security helpers; the call must return bytes or an error, never panic. Process: generated projects decorated with unsupported constructs, malformed annotations and configs are run through the real CLI binary under a time limit; outcome must be exit 0 with artefacts or non-zero with a message, never a Go panic. Sampling; hangs are only observable as time-outs (reported inconclusive).",
+  text="Generated-input search at three levels. Config: complete configurations with drawn security scheme catalogues (every scheme type, oauth2 with any subset of flows, null/absent pieces) and 0-2 tree edits are read by the real LoadGleeceConfig and, when accepted, drive the real spec emitters over a fixed API; raw bytes from the native fuzzer in the thorough tier. Unit: arbitrary validator rule lists, type names and JSON5 property bags are pushed through the real swagen.GenerateSpec (3.0 and 3.1) and the annotation/security helpers; the call must return bytes or an error, never panic. Process: generated projects decorated with unsupported constructs, malformed annotations and configs are run through the real CLI binary under a time limit; outcome must be exit 0 with artefacts or non-zero with a message, never a Go panic. Sampling; hangs are only observable as time-outs (reported inconclusive).",
   note="Trusts: rapid; intermediate metadata fabricated for the unit level is restricted to shapes the validators let through; a timeout is reported as inconclusive, not as a violation.",
   ref="6/C14"),
  "C01": dict(
